@@ -59,8 +59,8 @@ func (e *Expr) String() string {
 		return e.Name
 	case "nil", "true", "false", "result":
 		return e.Op
-	case "old":
-		return "old(" + e.Args[0].String() + ")"
+	case "old", "now":
+		return e.Op + "(" + e.Args[0].String() + ")"
 	case "sel":
 		return e.Args[0].String() + "." + e.Name
 	case "index":
@@ -386,11 +386,11 @@ func (ps *specParser) primary() *Expr {
 		switch t.s {
 		case "nil", "true", "false", "result":
 			return &Expr{Op: t.s, Pos: t.pos}
-		case "old":
+		case "old", "now":
 			ps.expect("(")
 			a := ps.expr()
 			ps.expect(")")
-			return &Expr{Op: "old", Args: []*Expr{a}, Pos: t.pos}
+			return &Expr{Op: t.s, Args: []*Expr{a}, Pos: t.pos}
 		case "cast":
 			ps.expect("(")
 			ty := ps.typ()
